@@ -130,7 +130,7 @@ func Run(s *simrt.Sim, f Focus) {
 	s.YieldP = util.Pick(s, []int{0, 0, 24, 96})
 
 	sProtos := []string{svc.PDirect, svc.PNone, svc.PSocks5, svc.PSS128, svc.PSS256}
-	cProtos := []string{svc.PDirect, svc.PDirect, svc.PNone, svc.PSS128, svc.PSS256}
+	cProtos := []string{svc.PDirect, svc.PDirect, svc.PNone, svc.PSocks5, svc.PSS128, svc.PSS256}
 	mtus := []int{1500, 1280, 1492, 9000, 65535}
 	sp := &svc.ServerSpec{Name: "in", Proto: util.Pick(s, sProtos), UDPPort: 5300, Listen6: s.GenChance(160), MTU: util.Pick(s, mtus)}
 	cs := &svc.ClientSpec{Name: "out", Proto: util.Pick(s, cProtos), Port: 5400, UDP: true, Up6: s.GenChance(96), MTU: util.Pick(s, mtus)}
@@ -180,6 +180,10 @@ func Run(s *simrt.Sim, f Focus) {
 		cs.PSK, cs.IPSKs = nil, nil
 		s.YieldP = util.Pick(s, []int{24, 96, 200})
 		s.PSwitch = util.Pick(s, []int{64, 160, 230})
+	}
+	if cs.Proto == svc.PSocks5 && s.GenChance(128) {
+		cs.Auth = true
+		cs.User = svc.User{Name: "relay", Password: "secret"}
 	}
 	direct := cs.Proto == svc.PDirect
 
